@@ -448,7 +448,7 @@ impl Property for C06EndAll {
     type Case = ChanCase;
     fn part(&self) -> &'static str { "graceful-end-all-sched" }
     fn strategy(&self, _tier: Tier) -> BoxedStrategy<ChanCase> {
-        case_strategy(Gen { kinds: &ALL_KINDS, max_streams: &[1, 2, 4], buffers: &[2, 4, 8], max_producers: 2, max_ops: 3, max_consumers: 3, retry: true, fresh_wakers: false, prefill: true, end_all: true, ..Default::default() })
+        case_strategy(Gen { kinds: &ALL_KINDS, max_streams: &[1, 2, 4], buffers: &[2, 4, 8], max_producers: 2, max_ops: 3, max_consumers: 3, retry: true, fresh_wakers: false, prefill: true, origins: true, end_all: true, ..Default::default() })
     }
     fn cases(&self, tier: Tier) -> u32 { match tier { Tier::Quick => 4_000, Tier::Thorough => 80_000 } }
     fn run(&self, case: &ChanCase) -> RunReport {
@@ -531,7 +531,7 @@ impl Property for C07EndOne {
     type Case = ChanCase;
     fn part(&self) -> &'static str { "end-one-sched" }
     fn strategy(&self, _tier: Tier) -> BoxedStrategy<ChanCase> {
-        case_strategy(Gen { kinds: &ALL_KINDS, max_streams: &[1, 2, 4], buffers: &[2, 4, 8], max_producers: 2, max_ops: 3, max_consumers: 3, retry: true, fresh_wakers: true, prefill: true, end_one: true, ..Default::default() })
+        case_strategy(Gen { kinds: &ALL_KINDS, max_streams: &[1, 2, 4], buffers: &[2, 4, 8], max_producers: 2, max_ops: 3, max_consumers: 3, retry: true, fresh_wakers: true, prefill: true, origins: true, end_one: true, ..Default::default() })
     }
     fn cases(&self, tier: Tier) -> u32 { match tier { Tier::Quick => 4_000, Tier::Thorough => 80_000 } }
     fn run(&self, case: &ChanCase) -> RunReport {
